@@ -55,5 +55,34 @@ func Tx(t *rapid.T, o TxOpts) ref.Tx {
 	for i := 0; i < nout; i++ {
 		m.Out = append(m.Out, ref.Out{Sats: U64(t, "sats"), Script: sc(t, slen(nout > 20, "olen"), "oscript")})
 	}
+	// special outpoints: the coinbase shape (one input, all-zero txid, index or sequence 0xffffffff),
+	// all-zero / all-ff txids on ordinary inputs, two inputs spending the same outpoint
+	if len(m.In) > 0 {
+		switch rapid.IntRange(0, 29).Draw(t, "outpoint_shape") {
+		case 0:
+			m.In = m.In[:1]
+			m.In[0].TxID = make(pbt.Hex, 32)
+			if rapid.Bool().Draw(t, "cb_vout") {
+				m.In[0].Vout = 0xffffffff
+			}
+			if rapid.Bool().Draw(t, "cb_seq") {
+				m.In[0].Seq = 0xffffffff
+			}
+		case 1:
+			i := rapid.IntRange(0, len(m.In)-1).Draw(t, "zero_txid_at")
+			fill := rapid.SampledFrom([]byte{0x00, 0xff}).Draw(t, "txid_fill")
+			id := make(pbt.Hex, 32)
+			for k := range id {
+				id[k] = fill
+			}
+			m.In[i].TxID = id
+			m.In[i].Vout = rapid.SampledFrom([]uint32{0, 0xffffffff, 1}).Draw(t, "zero_txid_vout")
+		case 2:
+			if len(m.In) >= 2 {
+				m.In[len(m.In)-1].TxID = append(pbt.Hex{}, m.In[0].TxID...)
+				m.In[len(m.In)-1].Vout = m.In[0].Vout
+			}
+		}
+	}
 	return m
 }
